@@ -145,3 +145,43 @@ pub fn lengths_near_limit() -> Vec<usize> {
     let l = max_len();
     vec![l - 2, l - 1, l, l + 1, l + 2, l + 3, l + 4, 2 * l, 1000]
 }
+
+/// very long inputs, named by (shape, total length in bytes) so that a replay file stays small.
+/// Lengths sit on both sides of the powers of two a buffer, a cap or a narrower integer would use.
+pub const HUGE_SHAPES: usize = 9;
+pub fn huge_lengths() -> Vec<usize> {
+    let mut v = vec![];
+    for k in [9u32, 10, 12, 15, 16, 17, 20] {
+        let p = 1usize << k;
+        v.extend([p - 1, p, p + 1, p + 3]);
+    }
+    v.extend([1000, 10_000, 100_000, 200_000, 1_000_003, 3_000_000]);
+    v
+}
+pub fn huge_input(shape: usize, n: usize) -> String {
+    let fill = |head: &str, unit: &str, tail: &str| {
+        let mut s = String::with_capacity(n + 8);
+        s.push_str(head);
+        while s.len() + unit.len() + tail.len() <= n {
+            s.push_str(unit);
+        }
+        // single bytes up to the exact length
+        while s.len() + tail.len() < n {
+            s.push('z');
+        }
+        s.push_str(tail);
+        s
+    };
+    match shape {
+        0 => fill("1.2.3-", "a", ""),
+        1 => fill("1.2.3+", "b", ""),
+        2 => fill("", "9", ".1.2"),
+        3 => fill("1.2.3-", "é", ""),
+        4 => fill("1.2.3\n", "a", "\nbbbbbbb"),
+        5 => fill("", "1.2.3-a\n", "x"),
+        6 => fill("foo ", "bar ", "baz"),
+        7 => fill(" ", " ", ""),
+        _ => fill("1.2.3-", "💥\r\n", "é"),
+    }
+}
+
